@@ -1,16 +1,21 @@
 PROP = {
     "go_test": "TestC18",
     "claimed": True,
-    "level_text": "PARTIAL. Proved (kernel-checked, 14 theorems closed under the global context): on the Gallina transcription of the InitGenesis/ExportGenesis pairs of quarantine, sanction, name, attribute, msgfees, hold and trigger and of their product in app.go's genesis order, every well-formed store (strictly key-sorted, each record under the key its setter computes, validity as the keepers demand) is rebuilt exactly from its own export - import (export s) = Some s - hence the second export equals the first and the re-imported state accepts its own export; every history of raw store writes/deletes yields a key-sorted table and two histories with extensionally equal final stores export identically (export does not depend on insertion order); the quarantine round trip is refuted for records carrying already-accepted senders (keeper-API-only states) with a witness. Validated on the real application on every run (NOT proved): cross-module block histories of signed transactions (orders incl. partially filled, commitments, payments, holds, markers with deny list and NAVs, scopes/specs/value owners, names, attributes with expirations, quarantine, permanent and temporary sanctions, waiting and queued triggers, message fees) are exported, a fresh App is initialised from the export, and the exported genesis of all ten custom modules and ~270 module queries are compared before/after for two generations; the observed genesis of the modelled modules and perturbed genesis files (reordered, duplicated, zero/expired/unspecified/unsanctionable entries) are evaluated against the model inside Coq. Determinism across runs (same process and a separate process) and restart safety (goleveldb, closed and reopened at random block boundaries) are VALIDATED ONLY, by comparing app hash, tx results and events of every block; a Gallina function is deterministic by construction, so no theorem can speak about Go map order, scheduling or crash points. Every `for range <map>` in the anchored files and the custom modules is extracted from the source on each run and compared with a reviewed allow-list.",
-    "level_note": "PARTIAL claim: export/import proved on module models + validated on the real app; determinism and restart validated only (sampled histories, 3 quick / 10 thorough per seed). Trusted: Coq kernel + vm_compute; the hand transcription Genesis/RoundTrip.v (tied to the code only by the correspondence run); hash-built store keys, name/attribute/msg-fee validators and bank balances enter the model as tables filled from the real functions; secondary indexes are not modelled (covered by the query comparison only); exchange, marker and metadata have no Coq model (JSON + query comparison only); the map-range extractor translate/maprange is syntactic (no type checker) and its path flags are name-based; restart = clean close/reopen at block boundaries, not a crash in the middle of a commit. No axioms.",
-    "technique": "Coq proof (generic sorted-table round trip + per-module instances, induction over write histories) of a Gallina model + differential correspondence evaluated in Coq + replay/restart/export-import validation on the real ABCI application + source scan of map ranges",
-    "coq_files": ["Genesis/RoundTrip.v", "Proofs/RoundTripProofs.v", "Corr/CorrBase.v", "Corr/C18.v"],
-    "rule": "a case is one of: round trip of a history's final state (and of the re-imported chain one block later), a perturbed genesis through the real InitChain, per-module canonical-JSON equality for the ten custom modules, the list of differing module queries, acceptance of the export by a fresh chain (two generations), per-block digests of a rerun / separate-process run / restarted run. Histories: 28-52 blocks of 2-8 signed transactions drawn from ~35 transaction kinds over all custom modules (about 10 % deliberately invalid). Non-trivial = a round trip whose export holds orders, holds, attributes, quarantine records and triggers, or a perturbation class x accept/reject outcome; distinct = distinct history labels / perturbation classes",
+    "level_text": "PARTIAL. Proved (kernel-checked, 26 theorems closed under the global context): on the Gallina transcriptions of the InitGenesis/ExportGenesis pairs of ALL TEN custom modules - quarantine, sanction, name, attribute, msgfees, hold, trigger (Genesis/RoundTrip.v), exchange (params, markets with fee tables / flags / permissions / required attributes, orders incl. partially filled ones, commitments, payments, last ids), marker (marker accounts with access lists as auth accounts, registry, deny list, net asset values) and metadata (scopes with value owners in the bank, sessions, records, scope / contract / record specifications, object store locators, scope net asset values with heights) - and of their product in app.go's genesis order (exchange's hold check against the imported hold state), every well-formed store (strictly key-sorted, each record under the key its setter computes, validity as the keepers demand, secondary-index entries exactly the ones derived from the primary records) is rebuilt exactly from its own export - import (export s) = Some s, INCLUDING the secondary indexes that InitGenesis rebuilds through the setters (exchange market/owner/asset/external-id order indexes and target->payment index, marker registry, metadata address->scope, spec->scope, address->spec, contract-spec->scope-spec indexes): C18_*_indexes_rebuilt - hence the second export equals the first and the re-imported state accepts its own export; a generic theorem for index-maintaining import loops (C18_indexed_import_fresh) and one for the per-owner regrouping of net asset values (C18_regroup_flat); every history of raw store writes/deletes yields a key-sorted table and two histories with extensionally equal final stores export identically. REFUTED with witnesses: a quarantine record with accepted and unaccepted senders (reached from a valid genesis holding a two-sender record by ONE MsgAccept: C18_quarantine_accepted_senders_reachable_refuted) is exported without its accepted senders, comes back under another key, and the same later messages release the funds on the imported chain but not on the exporting chain - reproduced on the real application (findings/C18.md). Validated on the real application on every run (NOT proved): cross-module block histories of signed transactions are exported, a fresh App is initialised from the export, and compared for two generations are the exported genesis of all ten custom modules, ~270 module queries, the RAW key/value content of every custom module store, and the raw secondary-index entries of the exchange / marker / metadata stores; the observed genesis of all ten modules and perturbed genesis files (reordered, duplicated, zero/expired/unspecified/unsanctionable entries; duplicate orders / payments / scopes with other owners / specifications with fewer owners, external-id clashes, too small last order id, market id 0, dropped markers, zero NAV volume) are evaluated against the models inside Coq, index tables byte for byte. Determinism across runs (same process and a separate process) and restart safety (goleveldb, closed and reopened at random block boundaries) are VALIDATED ONLY, on two history shapes (cross-module; fee-heavy with 16 extra accounts, 4-5 fee-bearing messages per transaction and at least three distinct fee recipients paid in every block, 20 % of them failing after the ante handler), by comparing app hash, tx results and events of every block; a Gallina function is deterministic by construction, so no theorem can speak about Go map order, scheduling or crash points. Every `for range <map>` in the anchored files and the custom modules is extracted from the source on each run and compared with a reviewed allow-list.",
+    "level_note": "PARTIAL claim: export/import proved on models of all ten custom modules + validated on the real app; determinism and restart validated only (sampled histories, 3+1 quick / 10+1 thorough per seed). Trusted: Coq kernel + vm_compute; the hand transcriptions Genesis/*.v (tied to the code only by the correspondence run); hash-built store keys (name, attribute, msg fee, record address), stateless validators and bank balances enter the models as tables filled from the real functions; opaque bodies (market details, session / record / specification content, params) are compared by SHA-256 of their protobuf encoding; the auth and bank modules' own genesis round trip is the SDK's (the marker accounts travel through the auth genesis as BaseAccounts, the scope coins through the bank genesis); secondary indexes of the seven RoundTrip.v modules are not modelled (query + raw-store comparison only); the attribute store comparison leaves out the name->address counters (known finding, compared through the query) and the expiration queue (stale entries are inert); the map-range extractor translate/maprange is syntactic (no type checker) and its path flags are name-based; restart = clean close/reopen at block boundaries, not a crash in the middle of a commit. No axioms.",
+    "technique": "Coq proof (generic sorted-table round trip, generic index-maintaining import loop, per-module instances, product in genesis order, induction over write histories) of Gallina models + differential correspondence evaluated in Coq (genesis values and raw index entries) + replay/restart/export-import/raw-store validation on the real ABCI application + source scan of map ranges",
+    "coq_files": ["Genesis/RoundTrip.v", "Genesis/Indexed.v", "Genesis/ExchangeGenesis.v", "Genesis/MarkerGenesis.v", "Genesis/MetadataGenesis.v",
+                  "Genesis/FullProduct.v", "Genesis/QuarantineAccept.v",
+                  "Proofs/RoundTripProofs.v", "Proofs/TableLemmas.v", "Proofs/ExchangeGenesisProofs.v", "Proofs/MarkerGenesisProofs.v",
+                  "Proofs/MetadataGenesisProofs.v", "Proofs/FullProductProofs.v", "Proofs/QuarantineAcceptProofs.v", "Proofs/FullWitness.v",
+                  "Corr/CorrBase.v", "Corr/C18Gen.v", "Corr/C18.v"],
+    "rule": "a case is one of: round trip of a history's final state (and of the re-imported chain one block later) for the seven RoundTrip.v modules and, separately, for exchange / marker / metadata with their raw index entries; a perturbed genesis through the real InitChain (two families); per-module canonical-JSON equality for the ten custom modules; per-module raw store equality; the list of differing module queries; acceptance of the export by a fresh chain (two generations); per-block digests of a rerun / separate-process run / restarted run; a scripted scenario (fee shape: >= 3 recipients per block; quarantine multi-sender record once listed). Histories: 28-52 blocks of 2-8 signed transactions drawn from ~35 transaction kinds over all custom modules (about 10 % deliberately invalid), plus one fee-heavy history of 10 (30) blocks with 6-10 four-message transactions each. Non-trivial = a round trip whose export holds orders, holds, attributes, quarantine records and triggers, or a perturbation class x accept/reject outcome, or a scenario; distinct = distinct history labels / perturbation classes",
     "assumptions": ["VALIDATION ONLY (not proof): determinism - the same recorded blocks replayed on a second App in the same process and on a third in a separate process give the same app hash, tx results (code, codespace, data, gas, log) and events for every block; evaluated in Coq merely as equality of the recorded digests (tags prop:determinism_digests_differ:*)",
                     "VALIDATION ONLY (not proof): restart - the same blocks on a goleveldb-backed App closed and reopened after ~35 % of the blocks give the same digests (tag prop:restart_digests_differ); a crash during Commit is not exercised",
-                    "VALIDATION ONLY (not proof): export/import on the real app is observed for the sampled histories; the theorem is about the model and covers quarantine, sanction, name, attribute, msgfees, hold, trigger only",
-                    "import starts from an empty module store (fresh chain); the bank, auth and staking genesis are imported by the SDK before the custom modules (bank differs after import only by mint/inflation of the extra block)",
-                    "names and attributes are stored normalized; addresses in genesis are valid bech32 (an undecodable address cannot be expressed in the model)",
+                    "VALIDATION ONLY (not proof): export/import on the real app is observed for the sampled histories; the theorems are about the models",
+                    "import starts from an empty module store (fresh chain); the bank, auth and staking genesis are imported by the SDK before the custom modules (bank differs after import only by mint/inflation of the extra block); the auth genesis carries every marker account as a BaseAccount with its account number (app/export.go), the bank genesis carries the scope coins",
+                    "names and attributes are stored normalized; addresses in genesis are valid bech32 (an undecodable address cannot be expressed in the models); denoms and required-attribute strings do not contain the record separator 0x1E; genesis coin lists that the Go code adds as sdk.Coins are denom-sorted",
+                    "the theorems' premise 'index entries = entries derived from the primary records' is checked on the real stores on every run (tags corr:premise_index_is_derived:*)",
                     "map-range allow-list checks identity (file, function, receiver, expression) and the set of callees in the loop body; other body edits inside an already reviewed loop are not detected"],
 }
 
@@ -129,4 +134,15 @@ def fingerprint(case, tags):
     if case.get("kind") == "queries" and case.get("module") == "attribute" and case.get("only_stale_lookup_entries_differ") is True \
             and all(t.endswith(":attribute.accounts.kyc") for t in ts):
         return "C18: stale attribute name->address lookup entry is not reproduced by import"
+    # third finding: a quarantine record with accepted AND unaccepted senders (genesis with a
+    # two-sender record + one MsgAccept) is exported without its accepted senders.  Matched only on
+    # the scripted scenario, when the scenario was driven, the two quarantine genesis exports are
+    # identical, and exactly the three observations of that scenario fail.
+    if case.get("kind") == "scenario" and case.get("scenario") == "quarantine_multi_sender" \
+            and case.get("driven") is True and case.get("partially_accepted_record_reached") is True \
+            and case.get("genesis_json_equal") is True \
+            and sorted(ts) == sorted(["prop:quarantine_multi_sender:store_equal_after_import",
+                                      "prop:quarantine_multi_sender:filtered_query_equal_after_import",
+                                      "prop:quarantine_multi_sender:same_messages_same_funds_after_import"]):
+        return "C18: quarantine export drops accepted_from_addresses"
     return None
